@@ -86,11 +86,11 @@ func stOf(t *Task) Status {
 
 //@ func (*Change).taskStatusChanged
 //@   trusted
-//@   preserves Task.status Task.waitedStatus Task.waitTasks Task.haltTasks Task.lanes Task.change Task.atTime Task.state Task.id Task.kind Task.readyTime Change.taskIDs Change.id Change.state State.tasks State.changes Md:Str:Ref Mv:Str:Ref Mc:Str:Ref E:Str E:Int
+//@   preserves Task.status Task.waitedStatus Task.waitTasks Task.haltTasks Task.lanes Task.change Task.atTime Task.state Task.id Task.kind Task.readyTime Change.taskIDs Change.id Change.state State.tasks State.changes Md:Str:Ref Mv:Str:Ref Mc:Str:Ref Md:Str:Bool Mv:Str:Bool Mc:Str:Bool Md:Int:Bool Mv:Int:Bool Mc:Int:Bool E:Str E:Int E:Ref
 
 //@ func (*State).notifyTaskStatusChangedHandlers
 //@   trusted
-//@   preserves Task.status Task.waitedStatus Task.waitTasks Task.haltTasks Task.lanes Task.change Task.atTime Task.state Task.id Task.kind Task.readyTime Change.taskIDs Change.id Change.state State.tasks State.changes Md:Str:Ref Mv:Str:Ref Mc:Str:Ref E:Str E:Int
+//@   preserves Task.status Task.waitedStatus Task.waitTasks Task.haltTasks Task.lanes Task.change Task.atTime Task.state Task.id Task.kind Task.readyTime Change.taskIDs Change.id Change.state State.tasks State.changes Md:Str:Ref Mv:Str:Ref Mc:Str:Ref Md:Str:Bool Mv:Str:Bool Mc:Str:Bool Md:Int:Bool Mv:Int:Bool Mc:Int:Bool E:Str E:Int E:Ref
 
 //@ func (*State).EnsureBefore
 //@   trusted
@@ -110,14 +110,14 @@ func stOf(t *Task) Status {
 //@   ensures old != new ==> t.status == new
 //@   ensures old == new ==> t.status == old(t.status)
 //@   ensures forall x *Task :: x != t ==> x.status == old(x.status)
-//@   ensures forall x *Task :: x.waitTasks == old(x.waitTasks) && x.haltTasks == old(x.haltTasks) && x.atTime == old(x.atTime) && x.state == old(x.state)
+//@   ensures forall x *Task :: x.waitTasks == old(x.waitTasks) && x.haltTasks == old(x.haltTasks) && x.atTime == old(x.atTime) && x.state == old(x.state) && x.id == old(x.id) && x.lanes == old(x.lanes) && x.waitedStatus == old(x.waitedStatus)
 
 //@ func (*Task).SetStatus
 //@   props C01
 //@   ensures old(t.status) == AbortStatus && new == DoneStatus ==> t.status == AbortStatus
 //@   ensures !(old(t.status) == AbortStatus && new == DoneStatus) ==> t.status == new
 //@   ensures forall x *Task :: x != t ==> x.status == old(x.status)
-//@   ensures forall x *Task :: x.waitTasks == old(x.waitTasks) && x.haltTasks == old(x.haltTasks) && x.atTime == old(x.atTime) && x.state == old(x.state)
+//@   ensures forall x *Task :: x.waitTasks == old(x.waitTasks) && x.haltTasks == old(x.haltTasks) && x.atTime == old(x.atTime) && x.state == old(x.state) && x.id == old(x.id) && x.lanes == old(x.lanes) && x.waitedStatus == old(x.waitedStatus)
 
 //@ func (*TaskRunner).tryUndo
 //@   props C01
